@@ -351,11 +351,17 @@ func (e *event) asFeedEvent(collectionID uint32) *sgbucket.FeedEvent {
 	if e.revSeqNo == 0 {
 		panic("event missing revSeqNo")
 	}
+	// The event is delivered after the write call has returned: it must not share the caller's buffer, which the
+	// caller is free to re-use by then.
+	value := e.value
+	if value != nil {
+		value = append(make([]byte, 0, len(value)), value...)
+	}
 	feedEvent := sgbucket.FeedEvent{
 		Opcode:       ifelse(e.isDeletion, sgbucket.FeedOpDeletion, sgbucket.FeedOpMutation),
 		CollectionID: collectionID,
 		Key:          []byte(e.key),
-		Value:        e.value,
+		Value:        value,
 		Cas:          e.cas,
 		Expiry:       e.exp,
 		DataType:     ifelse(e.isJSON, sgbucket.FeedDataTypeJSON, sgbucket.FeedDataTypeRaw),
